@@ -352,6 +352,7 @@ var docAddrPool = [][]byte{
 	{172, 15, 255, 255}, {172, 16, 0, 0}, {172, 31, 255, 255}, {172, 32, 0, 0},
 	{192, 167, 255, 255}, {192, 168, 0, 0}, {192, 168, 255, 255}, {192, 169, 0, 0}, {100, 64, 0, 1}, {169, 254, 1, 1},
 	mapped(10, 1, 2, 3), mapped(172, 20, 0, 9), mapped(192, 168, 1, 1), mapped(8, 8, 4, 4), mapped(172, 32, 0, 1),
+	{10, 1, 2, 3}, {172, 20, 0, 9}, {192, 168, 1, 1}, {8, 8, 4, 4}, {172, 32, 0, 1}, // the same addresses in their 4-byte form
 	v6(0xfc, 0), v6(0xfd, 0xff), v6(0xfb, 0xff), v6(0xfe, 0x80), v6(0x20, 0x01), v6(0xfe, 0),
 }
 
@@ -403,6 +404,17 @@ func genDocQuery(r *rng, maxTTL int, e2e bool, used map[int64]bool) docQuery {
 			h.dest = true
 		}
 		q.hops = append(q.hops, h)
+	}
+	if !e2e && r.intn(3) == 0 {
+		// what real runs produce: the destination as parsed from the target (16-byte form) and the
+		// destination hop as read off the wire (4-byte form) are the same address
+		v4 := pick(r, [][]byte{{8, 8, 4, 4}, {172, 32, 0, 1}, {203, 0, 113, 77}, {10, 1, 2, 3}})
+		q.dstIP = mapped(v4[0], v4[1], v4[2], v4[3])
+		last := &q.hops[len(q.hops)-1]
+		last.ip, last.dest = v4, true
+		if last.rttK == 0 {
+			last.rttK = int64(1 + r.intn(200000))
+		}
 	}
 	return q
 }
